@@ -29,7 +29,8 @@ from harness import core, modelcheck
 PROP = 'C18'
 GOV_KINDS = ('ConsolidatedGovernment', 'DoNothingGovernment', 'Treasury', 'GoldStandardGovernment')
 RENAMABLE = ('ConsolidatedGovernment', 'DoNothingGovernment', 'Treasury', 'CentralBank', 'Household',
-             'HouseholdWithExpectations', 'Capitalists', 'FixedMarginBusiness', 'FixedMarginBusinessMultiOutput',
+             'HouseholdWithExpectations', 'Capitalists', 'FixedMarginBusiness', 'FixedMarginBusinessSub',
+             'FixedMarginBusinessMultiOutput',
              'TaxFlow', 'Market', 'Sector')
 
 POOL_SECTOR = ['GOVT', 'HOUSE_1', 'HOUSE', 'FIRM', 'FIRM_B', 'TX', 'RENTIER', 'CBANK', 'Tre_asury', 'xx', 'Q7', 'ZED_9_q']
@@ -67,9 +68,22 @@ def make_renaming(prog, rnd):
 
 
 def rename_ident(name, rho):
-    """token-wise renaming of an identifier whose parts are separated by '_' (old codes contain no '_')"""
+    """token-wise renaming of an identifier whose parts are separated by '_' (old codes contain no '_').
+    Keys of the form 'CC.CODE' rename a sector of one particular country: they apply where the country code is
+    directly followed by the sector code (a full code inside a name)."""
     parts = name.split('_')
-    return '_'.join(rho.get(p, p) for p in parts)
+    out = []
+    i = 0
+    while i < len(parts):
+        p = parts[i]
+        if i + 1 < len(parts) and (p + '.' + parts[i + 1]) in rho:
+            out.append(rho.get(p, p))
+            out.append(rho[p + '.' + parts[i + 1]])
+            i += 2
+            continue
+        out.append(rho.get(p, p))
+        i += 1
+    return '_'.join(out)
 
 
 _ID = re.compile(r'[A-Za-z_][A-Za-z0-9_]*')
@@ -98,7 +112,7 @@ def rename_ref(ref, rho):
     cc, code = ref.split('.', 1)
     if cc == 'EXT':
         return ref
-    return '%s.%s' % (rho.get(cc, cc), rho.get(code, code))
+    return '%s.%s' % (rho.get(cc, cc), rho.get(cc + '.' + code, rho.get(code, code)))
 
 
 def rename_program(prog, rho):
@@ -114,9 +128,10 @@ def rename_program(prog, rho):
         elif op == 'Sector':
             kind = st['kind']
             old_ref = st['country'] + '.' + st['code']
+            old_cc = st['country']
             st['country'] = rho.get(st['country'], st['country'])
             if kind in RENAMABLE:
-                st['code'] = rho.get(st['code'], st['code'])
+                st['code'] = rho.get(old_cc + '.' + st['code'], rho.get(st['code'], st['code']))
             a = st.get('args') or {}
             for key in ('consumption_good_name', 'labour_name', 'labour_input_name', 'output_name',
                         'taxes_paid_to', 'issuer_short_code'):
@@ -214,8 +229,23 @@ def _rename_job(args):
     prog0 = modelcheck.program_for(bp, decl, seed)
     rho = make_renaming(prog0, rnd)
     # sometimes keep goods/labour names, sometimes keep sector codes: all three sub-cases of the statement
-    mode = rnd.choice(['all', 'all', 'sectors', 'markets', 'countries'])
-    if mode != 'all':
+    mode = rnd.choice(['all', 'all', 'sectors', 'markets', 'countries', 'per_country'])
+    ncountries = len([st for st in prog0 if st['op'] == 'Country'])
+    if mode == 'per_country' and ncountries < 2:
+        mode = 'all'
+    if mode == 'per_country':
+        # sectors that share a code in different countries get DIFFERENT new codes (a renaming of sectors, not of
+        # code strings); only where the full code carries the country prefix can the expected names be computed
+        pool = POOL_SECTOR[:]
+        rnd.shuffle(pool)
+        rho = {}
+        for st in prog0:
+            if st['op'] == 'Sector' and st['kind'] in RENAMABLE and st['kind'] != 'Market' and pool:
+                if st['kind'] in ('ConsolidatedGovernment', 'Treasury', 'CentralBank', 'GoldStandardGovernment',
+                                  'GoldStandardCentralBank', 'TaxFlow', 'DoNothingGovernment'):
+                    continue      # referred to by short code (taxes_paid_to, issuer_short_code) across the zone
+                rho[st['country'] + '.' + st['code']] = pool.pop()
+    if mode not in ('all', 'per_country'):
         keep = {}
         for k, v in rho.items():
             is_country = any(st['op'] == 'Country' and st['code'] == k for st in prog0)
@@ -435,6 +465,9 @@ def run(rep):
         if isinstance(r[0], str):
             raise core.MachineryError(r[0])
     judge(rep, cases, results)
+    if rep.tier != 'quick':     # extension specification (object lookup and zones): thorough tier only
+        from harness import lookupcheck
+        lookupcheck.run_lookup(rep)
 
 
 def judge(rep, cases, results):
